@@ -133,6 +133,12 @@ type recoverLog struct {
 
 type panicStruct struct{ N int }
 
+// ctxCause is an error with an empty text that wraps context.DeadlineExceeded.
+type ctxCause struct{}
+
+func (ctxCause) Error() string { return "" }
+func (ctxCause) Unwrap() error { return context.DeadlineExceeded }
+
 func classOfPanic(v any) string {
 	switch x := v.(type) {
 	case nil:
@@ -184,6 +190,11 @@ func buildOpts(nodes []optNode, side string, log *layerLog, rl *recoverLog, rec 
 					rl.calls++
 					rl.seen = append(rl.seen, classOfPanic(v))
 					rl.mu.Unlock()
+					if c := classOfPanic(v); c == "string" || c == "struct" {
+						// what the function returns is the function's business: a coded error whose cause happens to
+						// be a context error must reach the client with the function's code
+						return connect.NewError(connect.CodeDataLoss, fmt.Errorf("recovered%w", ctxCause{}))
+					}
 					return connect.NewError(connect.CodeDataLoss, errors.New("recovered"))
 				}))
 				continue
